@@ -16,6 +16,7 @@ import (
 	"fmt"
 	"io"
 	"net/http"
+	"regexp"
 	"sort"
 	"strings"
 	"syscall"
@@ -73,13 +74,14 @@ type c16src struct {
 	fault   int
 	tornAt  int
 	latency int64 // simulated ns before the source answers
+	buildID string
 	// slowSecs > 0: a URL source that asks for a profile of that many seconds
 	// (?seconds=N) and whose server answers after N simulated seconds; with
 	// no -seconds/-timeout flag pprof must wait N + N/2 (+5) seconds for it.
 	slowSecs int
-	samples []modelSample
-	addr    string
-	data    []byte
+	samples  []modelSample
+	addr     string
+	data     []byte
 }
 
 func (s *c16src) String() string {
@@ -99,7 +101,11 @@ func c16Build(s *c16src) *profile.Profile {
 		PeriodType: &profile.ValueType{Type: "cpu", Unit: "nanoseconds"},
 		Period:     1000,
 	}
-	m := &profile.Mapping{ID: 1, Start: 0x1000, Limit: 0x9000, File: "/bin/prog", BuildID: "b1d", HasFunctions: true}
+	bid := s.buildID
+	if bid == "" {
+		bid = "b1d"
+	}
+	m := &profile.Mapping{ID: 1, Start: 0x1000, Limit: 0x9000, File: "/bin/prog", BuildID: bid, HasFunctions: true}
 	p.Mapping = []*profile.Mapping{m}
 	locs := map[int]*profile.Location{}
 	getLoc := func(fi int) *profile.Location {
@@ -339,6 +345,38 @@ func (n *c16net) Fetch(src string, duration, timeout time.Duration) (*profile.Pr
 	return nil, "", fmt.Errorf("fetcher: cannot fetch %s", src)
 }
 
+// c16Obj finds local binaries stored by build id under $HOME/pprof/binaries,
+// the way locateBinaries looks for them; nothing else opens.
+type c16Obj struct{}
+
+type c16ObjFile struct{ name, id string }
+
+func (f c16ObjFile) Name() string                                                 { return f.name }
+func (f c16ObjFile) ObjAddr(addr uint64) (uint64, error)                          { return addr, nil }
+func (f c16ObjFile) BuildID() string                                              { return f.id }
+func (f c16ObjFile) SourceLine(addr uint64) ([]plugin.Frame, error)               { return nil, nil }
+func (f c16ObjFile) Symbols(r *regexp.Regexp, addr uint64) ([]*plugin.Sym, error) { return nil, nil }
+func (f c16ObjFile) Close() error                                                 { return nil }
+
+const c16Binaries = simHome + "/pprof/binaries/"
+
+func (c16Obj) Open(file string, start, limit, offset uint64, relocationSymbol string) (plugin.ObjFile, error) {
+	simrt.Point("obj-open", 0)
+	if strings.HasPrefix(file, c16Binaries) {
+		if _, ok := simos.GetFile(file); ok {
+			rest := strings.TrimPrefix(file, c16Binaries)
+			if i := strings.Index(rest, "/"); i > 0 {
+				return c16ObjFile{file, rest[:i]}, nil
+			}
+		}
+	}
+	return nil, fmt.Errorf("no object file %s", file)
+}
+
+func (c16Obj) Disasm(file string, start, end uint64, intelSyntax bool) ([]plugin.Inst, error) {
+	return nil, fmt.Errorf("no disassembler")
+}
+
 // ---- workload generation ----
 
 func c16GenSamples(t *simrt.Tape) []modelSample {
@@ -410,6 +448,7 @@ func (s *c16src) materialize() {
 }
 
 type c16case struct {
+	binaries   []string // build ids for which a local binary is installed
 	srcs       []*c16src
 	diffBase   bool
 	hasBase    bool
@@ -474,6 +513,9 @@ func (c *c16case) install() *c16net {
 			n.byFetch[s.addr] = s
 		}
 	}
+	for _, id := range c.binaries {
+		simos.PutFile(c16Binaries+id+"/prog", []byte("\x7fELF fake binary "+id))
+	}
 	if c.saveENOSPC {
 		// Saving the merged remote profile under $HOME/pprof must not matter:
 		// either the directory cannot be made, or the copy cannot be created or written.
@@ -530,7 +572,7 @@ func (c *c16case) run(x *xctx, cfg simrt.Config, onlyGood bool, zeroLatency bool
 	net := c.install()
 	ui := newTaskUI()
 	w := newWriter()
-	o := &plugin.Options{Flagset: newFlags(c.args(onlyGood)), UI: ui, Writer: w, Sym: nopSym{}, Obj: nopObj{}, Fetch: net, HTTPTransport: net}
+	o := &plugin.Options{Flagset: newFlags(c.args(onlyGood)), UI: ui, Writer: w, Sym: nopSym{}, Obj: c16Obj{}, Fetch: net, HTTPTransport: net}
 	var out c16out
 	cfg.Tape = x.t
 	simos.StartLog()
@@ -726,6 +768,14 @@ func runC16(x *xctx) *violation {
 	}
 	c := &c16case{diffBase: nb > 0 && t.Bool(K, 40), hasBase: nb > 0, saveENOSPC: t.Bool(simrt.KFault, 30)}
 	pctFail := []int{0, 15, 40, 70, 97}[t.Choose(simrt.KFault, 5)]
+	multiBuild := t.Bool(K, 25) // the same binary name in several builds, some of them installed locally
+	if multiBuild {
+		for _, id := range []string{"b1d", "b2d", "b3d"} {
+			if t.Bool(K, 60) {
+				c.binaries = append(c.binaries, id)
+			}
+		}
+	}
 	fileOnly := n > 10 && t.Bool(K, 50)
 	for i := 0; i < n+nb; i++ {
 		s := &c16src{idx: i, base: i >= n}
@@ -739,6 +789,9 @@ func runC16(x *xctx) *violation {
 		s.fault = c16FaultFor(t, s.kind, pctFail)
 		s.samples = c16GenSamples(t)
 		s.tornAt = 1 + t.Choose(simrt.KFault, 200)
+		if multiBuild {
+			s.buildID = []string{"b1d", "b2d", "b3d"}[t.Choose(K, 3)]
+		}
 		if s.kind != skFile {
 			s.latency = int64(t.Choose(simrt.KLatency, 50)) * int64(time.Millisecond)
 		}
